@@ -217,6 +217,9 @@ def rule_r2(ctx, repo):
         for name, m in (("is_all_in_sample", m_in), ("is_all_out_of_sample", m_out)):
             rets, _, k, fn = call(repo, it, me, name, cutoff=cutoff)
             vals = distinct([v for _, v in rets])
+            folded = fold_boolean_returns(it, rets)
+            if folded is not None:
+                vals = [folded]
             loc = ctx.loc(mod, fn)
             cons = "ForecastingHorizon.%s[%s]" % (name, tag)
             if len(vals) != 1:
@@ -226,7 +229,7 @@ def rule_r2(ctx, repo):
             if got is None:
                 ctx.undecided("R2", cons, "predicate not in a recognised all-of-mask form: %r" % (vals[0],), loc)
             elif got[0] == "bad":
-                ctx.violation("R2", cons, "%s compares %s" % (name, got[1]), loc)
+                ctx.violation("R2", cons, "%s tests %s" % (name, got[1]), loc)
             else:
                 ctx.check(got[1] == m, "R2", cons, "%s == all%r" % (name, m),
                           "%s tests the mask %r, expected %r" % (name, got[1], m), loc,
@@ -266,11 +269,37 @@ def _extreme_mask(v):
     return None
 
 
+def fold_boolean_returns(it, rets):
+    """Traces that return the constants True / False under one and the same condition c (True exactly where c holds)
+    denote the value c itself (early-exit loops: ``for f in mask: if not f: return False`` ... ``return True``)."""
+    if len(rets) < 2 or not all(isinstance(v, K) and isinstance(v.v, bool) for _, v in rets):
+        return None
+    cond = None
+    for s_, v in rets:
+        path = [(pv, t) for pv, t, _ in it.path_of(s_) if isinstance(pv, AllV)]
+        if len(path) != 1:
+            return None
+        pv, t = path[0]
+        if cond is None:
+            cond = pv
+        if not (pv == cond) or t != v.v:
+            return None
+    return cond
+
+
 def all_form(v):
     """('all', mask) for the recognised spellings of "mask holds for every element";
     ('bad', text) for a well-formed but different comparison; None if not recognised."""
     if isinstance(v, AllV):
         return "all", v.mask
+    if isinstance(v, Opq) and v.tag == "last-element-of" and len(v.args) == 2 and isinstance(v.args[0], Mask) \
+            and v.args[0].op == "le" and v.args[0].vec.sorted and not v.args[0].vec.neg and v.args[1] == K(True):
+        # ascending values: the largest (last) one is <= 0 exactly if all are; the empty horizon keeps the initial True
+        return "all", v.args[0]
+    if isinstance(v, Opq) and v.tag in ("last-element-of", "not-last-element-of", "any") and v.args and isinstance(v.args[0], Mask):
+        return "bad", {"last-element-of": "only the last element of %r (the accumulator is overwritten in every iteration)",
+                       "not-last-element-of": "only the negated last element of %r",
+                       "any": "whether *some* element satisfies %r"}[v.tag] % (v.args[0],)
     if isinstance(v, Opq) and v.tag == "or" and len(v.args) == 2:
         # empty horizon or extreme element on the right side:  len == 0 or min(v) > 0   /   len == 0 or max(v) <= 0
         n = Lin.sym("len(fh)")
